@@ -1080,3 +1080,13 @@ func (s *pstate) viaLoop(ex *executor) bool {
 	}
 	return false
 }
+
+// hasLoopStoreTo: some store to field fld (of the receiver) on this path happens inside a loop.
+func (p *Path) hasLoopStoreTo(fld string) bool {
+	for _, e := range p.Effects {
+		if e.Kind == "store" && e.InLoop && isRecvField(e.Addr.unver(), fld) {
+			return true
+		}
+	}
+	return false
+}
